@@ -28,7 +28,7 @@ COMPONENTS = {"real": ["setigen.voltage.data_stream.DataStream", "setigen.voltag
 ASSUMPTIONS = ["numpy Generator.standard_normal is stream-consistent (n1 then n2 draws == n1+n2 draws); asserted at start-up",
                "at most one noise source per stream (two sources share one generator, so their draws legitimately interleave per request)",
                "custom sources are pure functions of the time array"]
-PROBES = ["source_returns_view_of_own_array", "dyadic_bitwise", "request_len_1", "control_set_time", "control_add_time", "control_reset_start",
+PROBES = ["chirp_parameters_given_as_quantities", "source_returns_view_of_own_array", "dyadic_bitwise", "request_len_1", "control_set_time", "control_add_time", "control_reset_start",
           "control_update_noise", "complex_source", "descending_band", "antenna_two_pols", "negative_drift", "source_callback_error"]
 
 
@@ -51,6 +51,10 @@ def gen_sources(rng, fs, fch1, ascending):
         src["chirps"].append({"f_start": f_start,
                               "drift": rng.choice([0.0, 0.0, 1.0, -1.0, 250.0, -3000.0, 1e5]),
                               "level": rng.choice([1.0, 0.1, 5.0]), "phase": rng.choice([0.0, 0.5, -1.2, math.pi])})
+        if rng.random() < 0.3:
+            # the documented alternative spelling: astropy quantities, in whatever unit the user likes
+            src["chirps"][-1]["f_unit"] = rng.choice(["Hz", "kHz", "MHz", "GHz"])
+            src["chirps"][-1]["d_unit"] = rng.choice(["Hz/s", "kHz/s", "MHz/s", "kHz/min", "mHz/s", None])
     for _ in range(rng.choice([0, 0, 1, 1, 2])):
         src["customs"].append({"kind": rng.choice(["sin", "cexp", "lin", "const", "list", "rtable", "ctable", "ctable"]),
                                "a": rng.choice([1.0, 0.25, -2.0]), "f": rng.choice([0.5, 3.0, 40.0])})
@@ -195,6 +199,24 @@ def custom_lipschitz(c):
     return {"sin": 2 * np.pi * f * a, "cexp": 2 * np.pi * f * a, "lin": a, "const": 0.0, "list": a, "rtable": 0.0, "ctable": 0.0}[c["kind"]]
 
 
+def with_quantities(cfg):
+    """Chirp parameters given with units: the Quantity objects handed to the library are kept under '_fq'/'_dq', and
+    the plain numbers the reference uses are astropy's own conversion of exactly those objects to Hz and Hz/s."""
+    from astropy import units as u
+    cfg = copy.deepcopy(cfg)
+    for src in cfg["sources"]:
+        for ch in src["chirps"]:
+            if ch.get("f_unit"):
+                fu = u.Unit(ch["f_unit"])
+                ch["_fq"] = (ch["f_start"] * u.Hz).to(fu)
+                ch["f_start"] = float(ch["_fq"].to(u.Hz).value)
+            if ch.get("d_unit"):
+                du = u.Unit(ch["d_unit"])
+                ch["_dq"] = (ch["drift"] * u.Hz / u.s).to(du)
+                ch["drift"] = float(ch["_dq"].to(u.Hz / u.s).value)
+    return cfg
+
+
 def build(cfg, setigen_voltage):
     if cfg["kind"] == "stream":
         s = setigen_voltage.DataStream(sample_rate=cfg["fs"], fch1=cfg["fch1"], ascending=cfg["ascending"],
@@ -226,7 +248,8 @@ def add_sources(streams, cfg, gates=None):
         if src["noise"] is not None:
             s.add_noise(src["noise"][0], src["noise"][1])
         for ch in src["chirps"]:
-            s.add_constant_signal(f_start=ch["f_start"], drift_rate=ch["drift"], level=ch["level"], phase=ch["phase"])
+            s.add_constant_signal(f_start=ch.get("_fq", ch["f_start"]), drift_rate=ch.get("_dq", ch["drift"]), level=ch["level"],
+                                  phase=ch["phase"])
         for cu in src["customs"]:
             s.add_signal(make_custom(cu))
         if gates is not None:
@@ -322,7 +345,9 @@ class RefStream:
 
 def execute(sc, ctx):
     import setigen.voltage as sv
-    cfg = sc["cfg"]
+    cfg = with_quantities(sc["cfg"])
+    if any(ch.get("_fq") is not None or ch.get("_dq") is not None for s_ in cfg["sources"] for ch in s_["chirps"]):
+        ctx.hit("chirp_parameters_given_as_quantities")
     dy = cfg["dyadic"]
     top, streams = build(cfg, sv)
     states = [copy.deepcopy(s.rng.bit_generator.state) for s in streams]
